@@ -85,7 +85,8 @@ impl Loop {
             i: from,
             from,
             to,
-            step,
+            // a step of 0 would never reach the end value
+            step: step.max(1),
             delay,
             command,
             parsed_string,
